@@ -722,6 +722,11 @@ class VM:
                     pass
         fr = Frame(fn.__qualname__, fn.__globals__, closure)
         self.bind(node.args, fn.__defaults__ or (), fr, args, kwargs)
+        if fn.__kwdefaults__:
+            for k_, v_ in fn.__kwdefaults__.items():
+                if k_ not in kwargs:
+                    fr.locals[k_] = v_
+        fr.first_arg = node.args.args[0].arg if node.args.args else None
         return self.run_body(node, fr, g, gen)
 
     def run_body(self, node, fr, g, gen):
@@ -1121,11 +1126,29 @@ class Ctx:
         elif isinstance(t, (ast.Tuple, ast.List)):
             stars = [i for i, x in enumerate(t.elts) if isinstance(x, ast.Starred)]
             if stars:
-                try:
-                    nat = to_native(v)
-                except NotConcrete:
-                    raise Unsupported('starred unpacking of a symbolic sequence')
-                seq = list(v.slots[:v.lo]) if isinstance(v, MList) else list(v) if isinstance(v, (tuple, list)) else list(nat)
+                if isinstance(v, MList) and v.lo != v.hi:
+                    # list of symbolic length: only "a, b, *rest" (star last) is modelled
+                    i = stars[0]
+                    if i != len(t.elts) - 1:
+                        raise Unsupported('starred unpacking of a symbolic-length list with targets after the star')
+                    self.raise_(b_not(v.len_gt(i - 1)) if i > 0 else False, ValueError('not enough values to unpack'))
+                    for k_, tt in enumerate(t.elts[:i]):
+                        self.bind_target(tt, v.slots[k_] if k_ < len(v.slots) else None)
+                    rest = MList(v.slots[i:v.hi])
+                    rest.lo, rest.hi = max(0, v.lo - i), max(0, v.hi - i)
+                    rest.len = fold(v.len, lambda n_: max(0, n_ - i))
+                    rest.fresh = True
+                    self.bind_target(t.elts[i].value, rest)
+                    return
+                if isinstance(v, MList):
+                    seq = list(v.slots[:v.lo])
+                elif isinstance(v, (tuple, list)):
+                    seq = list(v)
+                else:
+                    try:
+                        seq = list(to_native(v))
+                    except NotConcrete:
+                        raise Unsupported('starred unpacking of a symbolic sequence')
                 i = stars[0]
                 after = len(t.elts) - i - 1
                 if len(seq) < len(t.elts) - 1:
@@ -1168,6 +1191,15 @@ class Ctx:
             return list(v)
         if isinstance(v, MList) and v.lo == v.hi == n:
             return list(v.slots[:n])
+        if isinstance(v, GSeq):
+            ent = [(g, x) for g, x in v.entries if b_and(self.g, g) is not False]
+            if len(ent) == n and all(b_and(self.g, b_not(g)) is False for g, _ in ent):
+                return [x for _, x in ent]
+            raise Unsupported('unpacking a generated sequence of symbolic length')
+        if isinstance(v, MList) and (v.lo != n or v.hi != n):
+            if v.lo == v.hi:
+                self.raise_(True, ValueError('wrong number of values to unpack'))
+                return [None] * n
         if isinstance(v, SChoice):
             parts = None
             for (ga, va) in reversed(v.alts):
@@ -1800,39 +1832,62 @@ class Ctx:
         return self.comp(e, 'dict')
 
     def comp(self, e, kind):
+        """comprehensions / generator expressions, evaluated eagerly and IN ORDER: an element whose evaluation raises removes
+        those inputs from everything that follows (as the aborted comprehension would), and from the enclosing path"""
         entries = []
         sub = Frame(self.fr.name + '<comp>', self.fr.globals, self.fr.closure, self.fr)
         sub.exc = self.fr.exc
+        start = self.g
+        st = {'lost': False}
+
+        def alive(g):
+            return b_and(g, b_not(st['lost'])) if st['lost'] is not False else g
+
+        def run(c, f):
+            before = c.g
+            r = f()
+            if c.g is not before:
+                st['lost'] = b_or(st['lost'], b_and(before, b_not(c.g)))
+            return r
 
         def rec(gi, gens):
+            gi = alive(gi)
+            if gi is False:
+                return
             if not gens:
                 c = Ctx(self.vm, sub, gi)
-                v = (c.ev(e.key), c.ev(e.value)) if kind == 'dict' else c.ev(e.elt)
-                entries.append((c.g, v))
+                v = run(c, lambda: (c.ev(e.key), c.ev(e.value)) if kind == 'dict' else c.ev(e.elt))
+                if c.g is not False:
+                    entries.append((c.g, v))
                 return
             gen = gens[0]
             c = Ctx(self.vm, sub, gi)
-            it = c.ev(gen.iter)
+            it = run(c, lambda: c.ev(gen.iter))
             for (ge, val) in c.iter_plan(it):
-                g2 = b_and(c.g, self.vm.conc(ge))
+                g2 = alive(b_and(c.g, self.vm.conc(ge)))
                 if g2 is False:
                     continue
                 c2 = Ctx(self.vm, sub, g2)
-                c2.bind_target(gen.target, val)
-                gg = g2
+                run(c2, lambda: c2.bind_target(gen.target, val))
+                gg = c2.g
                 for cond in gen.ifs:
                     c3 = Ctx(self.vm, sub, gg)
-                    gg = b_and(c3.g, self.vm.conc(c3.truth(c3.ev(cond))))
+                    t = run(c3, lambda: self.vm.conc(c3.truth(c3.ev(cond))))
+                    gg = b_and(c3.g, t)
                 if gg is not False:
                     rec(gg, gens[1:])
 
         rec(self.g, e.generators)
-        # guards of entries are relative to path guard; make them relative (drop self.g)
+        if st['lost'] is not False and kind != 'gen':
+            self.g = b_and(self.g, b_not(st['lost']))
         if kind == 'gen':
             return GSeq(entries)
         if kind == 'list':
-            if all(same_g(g, self.g) for g, _ in entries):
-                return MList([v for _, v in entries])
+            # entries present on every remaining input of this path form an ordinary list
+            if all(b_and(self.g, b_not(g)) is False for g, _ in entries):
+                l = MList([v for _, v in entries])
+                l.fresh = True
+                return l
             return GSeq(entries)
         if kind == 'set':
             s = MSet()
@@ -1853,11 +1908,41 @@ class Ctx:
     # ----- calls
     def ex_Call(self, e):
         fn = self.ev(e.func)
+        if (isinstance(fn, BuiltinMethod) and isinstance(fn.obj, MSet) and fn.name in ('union', 'update') and len(e.args) == 1
+                and isinstance(e.args[0], ast.Starred) and not e.keywords):
+            # S.union(*seq) / S.update(*seq) with a sequence of symbolic length: every operand contributes under its guard
+            seq = self.ev(e.args[0].value)
+            tgt = fn.obj
+            if fn.name == 'union':
+                tgt = fn.obj.copy()
+                tgt.fresh = True
+            for (ge, v) in self.iter_plan(seq):
+                gg = b_and(self.g, ge)
+                if gg is False:
+                    continue
+                for (gm, x) in self.iter_plan(v):
+                    self.set_add(tgt, x, b_and(gg, gm))
+            return tgt if fn.name == 'union' else None
         args = []
         for a in e.args:
             if isinstance(a, ast.Starred):
                 v = self.ev(a.value)
-                args.extend(v.slots[:v.lo] if isinstance(v, MList) else list(v))
+                if isinstance(v, MList):
+                    if v.lo != v.hi:
+                        raise Unsupported('*args from a list of symbolic length')
+                    args.extend(v.slots[:v.lo])
+                elif isinstance(v, GSeq):
+                    ent = [(g, x) for g, x in v.entries if b_and(self.g, g) is not False]
+                    if not all(b_and(self.g, b_not(g)) is False for g, _ in ent):
+                        raise Unsupported('*args from a generated sequence of symbolic length')
+                    args.extend(x for _, x in ent)
+                elif isinstance(v, (MSet, MDict, KeysView, ValuesView, ItemsView)):
+                    try:
+                        args.extend(list(to_native(v)) if not isinstance(v, MSet) else [k for k in v.keys_sorted() if v.bits[k] is True and all(is_c(b) for b in v.bits.values())])
+                    except NotConcrete:
+                        raise Unsupported('*args from a symbolic collection')
+                else:
+                    args.extend(list(v))
             else:
                 args.append(self.ev(a))
         kwargs = {k.arg: self.ev(k.value) for k in e.keywords}
@@ -2251,7 +2336,7 @@ def builtin_method(ctx, o, n, args, kwargs):
                 sub = ctx.sub(b_and(gk, b_not(pres)))
                 if sub.g is not False:
                     sub.setitem(o, ka, dflt)
-                res = merge(gk, o.vals[ka], res)
+                res = merge(gk, o.vals.get(ka, UNDEF), res)
             return None if res is UNDEF else res
         if n == 'keys':
             return KeysView(o)
@@ -2476,6 +2561,14 @@ def m_isinstance(ctx, o, cls):
 
 
 def m_super(ctx, cls=None, obj=None):
+    if cls is None:
+        # zero-argument form: the class comes from the method's __class__ cell, the instance is its first parameter
+        f = ctx.fr
+        while f is not None and '__class__' not in f.closure:
+            f = f.parent
+        if f is None or getattr(f, 'first_arg', None) is None:
+            raise Unsupported('zero-argument super() outside a method')
+        cls, obj = f.closure['__class__'], f.locals[f.first_arg]
     return SuperProxy(cls, obj)
 
 
@@ -2665,6 +2758,22 @@ def m_reversed(ctx, it):
     return GSeq(list(reversed(plan)))
 
 
+def m_product(ctx, *its, repeat=1):
+    plans = [[(g, v) for g, v in ctx.iter_plan(it) if g is not False] for it in its] * repeat
+    out = [(True, ())]
+    for p_ in plans:
+        out = [(b_and(g0, g1), t0 + (v1,)) for (g0, t0) in out for (g1, v1) in p_]
+    return GSeq([(g, t) for g, t in out if g is not False])
+
+
+def m_chain(ctx, *its):
+    out = []
+    for it in its:
+        out += [(g, v) for g, v in ctx.iter_plan(it) if g is not False]
+    return GSeq(out)
+
+
 import collections as _collections
-MODELS = {_collections.deque: m_deque, enumerate: m_enumerate, zip: m_zip, reversed: m_reversed, weakref.ref: m_weakref_ref, weakref.WeakValueDictionary: m_dict, weakref.WeakKeyDictionary: m_dict, any: m_any, all: m_all, bool: m_bool, max: m_max, tuple: m_tuple, frozenset: m_frozenset, weakref.WeakSet: m_set, id: m_id, set: m_set, dict: m_dict, list: m_list, len: m_len, iter: m_iter, next: m_next, min: m_min,
+import itertools as _itertools
+MODELS = {_itertools.product: m_product, _itertools.chain: m_chain, _collections.deque: m_deque, enumerate: m_enumerate, zip: m_zip, reversed: m_reversed, weakref.ref: m_weakref_ref, weakref.WeakValueDictionary: m_dict, weakref.WeakKeyDictionary: m_dict, any: m_any, all: m_all, bool: m_bool, max: m_max, tuple: m_tuple, frozenset: m_frozenset, weakref.WeakSet: m_set, id: m_id, set: m_set, dict: m_dict, list: m_list, len: m_len, iter: m_iter, next: m_next, min: m_min,
           isinstance: m_isinstance, super: m_super, range: m_range, sum: m_sum, str: m_str, sorted: m_sorted}
